@@ -225,8 +225,18 @@ def run(ctx: Ctx) -> None:
     for c, d in itertools.product((False, True), repeat=2):
         tok = Tok("v", ty=Tok("ty", copyable=c, droppable=d, linear=not c and not d))
         try:
-            verdicts[(c, d)] = all(PyEval(idx, cvs.module.name).truth(PyEval(idx, cvs.module.name).ev(a.test, {pname: [[tok]]})) for a in asserts)
-        except (Unsupported, Raised) as e:
+            # the function is run up to (and including) its last assertion, so that locals the assertion reads are bound
+            last = max(i for i, st in enumerate(cvs.node.body) if any(x is a for a in asserts for x in ast.walk(st)))
+            ev_a = PyEval(idx, cvs.module.name)
+            ev_a.check_asserts = True
+            params_a = [x.arg for x in cvs.node.args.args]
+            env_a = {p_: Tok(p_) for p_ in params_a}
+            env_a[pname] = [[tok]]
+            out_a = ev_a.run(cvs.node.body[: last + 1], env_a)
+            verdicts[(c, d)] = not (out_a[0] == "raise" and "AssertionError" in str(out_a[1]))
+        except Raised as e:
+            verdicts[(c, d)] = "AssertionError" not in str(e.cls or e)
+        except (Unsupported, ValueError) as e:
             und = str(e)
             break
     key = f"{cvs.qualname}#no-linear-place-in-branch-sum"
